@@ -95,7 +95,7 @@ func kindFamily(kind string) string {
 		return "output"
 	case "status":
 		return "status"
-	case "close", "stall", "http-500", "http-403", "http-403-empty", "http-502-empty":
+	case "close", "stall", "die-before", "http-500", "http-403", "http-403-empty", "http-502-empty":
 		return "transport"
 	}
 	return "job"
@@ -348,7 +348,7 @@ func checkC09(tier, replay string) int {
 					}
 				}
 				for _, kind := range kinds {
-					if kind == "stall" && tier == "quick" && (e.Ord+int(env.Seed))%5 != 0 {
+					if (kind == "stall" || kind == "die-before") && tier == "quick" && (e.Ord+int(env.Seed))%5 != 0 {
 						continue
 					}
 					// do-approve runs start from the status file of earlier
